@@ -4,7 +4,7 @@ import math
 
 from hypothesis import strategies as st
 
-from vf.engine import Violation, require
+from vf.engine import Skip, Violation, require
 from vf.tree import attach
 
 ID = "C15"
@@ -14,13 +14,16 @@ RULE = (
     "exhaustive: every (n,k) with n<=N_EX, k<=4, whole index range compared with sorted(descending itertools.combinations); "
     "sampled: n in 41..6000, k in 1..4, index biased to first/last/C(m,k) boundaries, checked by rank(unrank(i))==i, "
     "strict descent, range and colex-successor; kernel: recorded triples of dbal_fast_gauss_scoring_vectorized for "
-    "n in 3..40 and budgets around C(n,3). Non-trivial = k>=2 and the index range has an interior (C(n,k)>=3) "
+    "n in 3..40 and budgets around C(n,3); behavioural kernel cases: for n<=6 the score must equal the estimator over SOME set of min(budget,C(n,3)) distinct triples "
+    "(subset search), and for n in 30..400 a scripted generator hands the kernel indices at the C(a,3) block boundaries and the score must equal the estimator over the "
+    "triples those indices denote (own unranking). Non-trivial = k>=2 and the index range has an interior (C(n,k)>=3) "
     "[exhaustive (n,k) pairs], or k>=2 and index neither first nor last [sampled], or a kernel case with n>=4. "
     "distinct = distinct (kind,n,k,index/budget)."
 )
 ASSUMPTIONS = [
     "itertools.combinations and math.comb are the reference",
-    "the kernel obtains its triples through the module-level name get_combination_at_sorted_index (spied by name; a rename is a harness error)",
+    "the name-based spy on get_combination_at_sorted_index is optional (skipped when the kernel does not call it); what the kernel uses is decided behaviourally through its score",
+    "the scripted-generator case assumes the kernel draws its triple indices with rng.choice(C(n,3), size, replace=False); any other use of the generator skips the case",
 ]
 
 
@@ -70,8 +73,125 @@ def _kernel(draw):
     return {"kind": "kernel", "n": n, "budget": max(1, budget), "seed": draw(st.integers(0, 2**32 - 1))}
 
 
+@st.composite
+def _kernel_subset(draw):
+    n = draw(st.sampled_from([3, 4, 5, 5, 6]))
+    c = math.comb(n, 3)
+    if n == 6:
+        budget = draw(st.sampled_from([1, 2, 18, 19, 20, 25]))
+    else:
+        budget = draw(st.integers(1, c + 2))
+    return {"kind": "kernel_subset", "n": n, "budget": budget, "seed": draw(st.integers(0, 2**32 - 1))}
+
+
+@st.composite
+def _kernel_scripted(draw):
+    n = draw(st.integers(30, 400))
+    return {"kind": "kernel_scripted", "n": n, "picks": draw(st.lists(st.integers(0, 10**9), min_size=5, max_size=40)), "seed": draw(st.integers(0, 2**32 - 1))}
+
+
 def strategy(tier):
-    return st.one_of(_sampled(), _sampled(), _sampled(), _kernel())
+    return st.one_of(_sampled(), _sampled(), _sampled(), _kernel(), _kernel_subset(), _kernel_scripted())
+
+
+def _unrank3(i):
+    """independent unranking of index i to the descending triple (a, b, c): i = C(a,3) + C(b,2) + c."""
+    a = max(2, int(round((6 * i) ** (1.0 / 3.0))))
+    while math.comb(a, 3) > i:
+        a -= 1
+    while math.comb(a + 1, 3) <= i:
+        a += 1
+    rem = i - math.comb(a, 3)
+    b = max(1, int(math.isqrt(2 * rem)))
+    while math.comb(b, 2) > rem:
+        b -= 1
+    while math.comb(b + 1, 2) <= rem:
+        b += 1
+    return (a, b, rem - math.comb(b, 2))
+
+
+def _triple_terms(preds, var, d, triples):
+    """log of each triple's summand of the documented estimator, one plate; preds/var: (n, E)."""
+    import numpy as np
+
+    t = np.asarray(triples, dtype=int)
+    i, j, k = t[:, 0], t[:, 1], t[:, 2]
+    vi, vj, vk = var[i], var[j], var[k]
+    alpha = vi * vj + vj * vk + vi * vk
+    quad = vk * (preds[i] - preds[j]) ** 2 + vj * (preds[i] - preds[k]) ** 2 + vi * (preds[j] - preds[k]) ** 2
+    body = np.sum(-0.5 * np.log(alpha) - 0.5 * vi * vj * vk / alpha**2 * quad, axis=1)
+    with np.errstate(divide="ignore"):
+        return np.log(d[i, j] + d[j, k] + d[i, k]) + body
+
+
+def _lse(x):
+    import numpy as np
+
+    m = np.max(x)
+    return float(m + np.log(np.sum(np.exp(x - m))))
+
+
+def _behavioural_kernel(case, gd):
+    """What the kernel USES is observed through its result, not through any internal name: the returned score must be the
+    estimator over some set of pairwise distinct in-range triples of the right size (small n: search over subsets), and,
+    with a scripted generator handing it chosen indices, over exactly the triples those indices unrank to."""
+    import numpy as np
+
+    f = attach(gd, "dbal_fast_gauss_scoring_vectorized")
+    n = case["n"]
+    r = np.random.default_rng(case["seed"])
+    E = 2
+    preds = r.normal(size=(n, E))
+    var = 10.0 ** r.uniform(-1, 1, size=(n, E))
+    d = r.uniform(0.1, 2.0, size=(n, n))
+    d = d + d.T
+    np.fill_diagonal(d, 0)
+    c = math.comb(n, 3)
+    if case["kind"] == "kernel_subset":
+        b = min(case["budget"], c)
+        score = float(f(preds[None], var[None], d, np.random.default_rng(case["seed"] + 1), max_combos=case["budget"])[0])
+        all_triples = [tuple(sorted(x, reverse=True)) for x in itertools.combinations(range(n), 3)]
+        terms = _triple_terms(preds, var, d, all_triples)
+        ok = False
+        for S in itertools.combinations(range(c), b):
+            if abs(_lse(terms[list(S)]) - score) <= 1e-9 * (1 + abs(score)):
+                ok = True
+                break
+        require(ok, "kernel.score_is_a_set_of_distinct_triples", lambda: "n=%d budget=%d: the score %r is not the estimator over any %d pairwise distinct in-range triples (all triples give %r)" % (n, case["budget"], score, b, _lse(terms)))
+        return {"nontrivial": n >= 4, "labels": ["kernel_subset.all" if b == c else "kernel_subset.subsampled"]}
+    # scripted generator: indices at the starts/ends of the blocks C(a,3), plus drawn ones
+    idx = set()
+    for pick in case["picks"]:
+        a = 3 + pick % max(1, n - 3)
+        for delta in (-1, 0, 1):
+            i = math.comb(a, 3) + delta
+            if 0 <= i < c:
+                idx.add(i)
+        idx.add(pick % c)
+    idx |= {0, c - 1}
+    idx = sorted(idx)
+
+    class Scripted:
+        def __init__(self):
+            self.used = False
+
+        def choice(self, a, size=None, replace=True, *args, **kw):
+            if int(a) != c or replace is not False or int(size) != len(idx):
+                raise Skip()
+            self.used = True
+            return np.array(idx, dtype=np.int64)
+
+        def __getattr__(self, name):
+            raise Skip()
+
+    g = Scripted()
+    score = float(f(preds[None], var[None], d, g, max_combos=len(idx))[0])
+    if not g.used:
+        raise Skip()
+    triples = [_unrank3(i) for i in idx]
+    expect = _lse(_triple_terms(preds, var, d, triples))
+    require(abs(score - expect) <= 1e-9 * (1 + abs(expect)), "kernel.uses_the_unranked_triples", lambda: "n=%d: with the sampled indices %r... the score is %r, the estimator over the triples those indices denote is %r" % (n, idx[:6], score, expect))
+    return {"nontrivial": True, "labels": ["kernel_scripted.n>=247" if n >= 247 else "kernel_scripted"], "counts": {"scripted_indices": len(idx)}}
 
 
 def _rank(t):
@@ -98,6 +218,8 @@ def check_case(case):
 
     unrank = attach(gd, "get_combination_at_sorted_index")
     kind = case["kind"]
+    if kind in ("kernel_subset", "kernel_scripted"):
+        return _behavioural_kernel(case, gd)
     if kind == "all":
         n, k = case["n"], case["k"]
         ref = sorted(tuple(sorted(c, reverse=True)) for c in itertools.combinations(range(n), k))
@@ -143,6 +265,10 @@ def check_case(case):
             gd.get_combination_at_sorted_index = orig
         c = math.comb(n, 3)
         triples = [r[3] for r in rec]
+        if not rec:
+            # the kernel no longer goes through this helper (a refactor): nothing to observe here, the behavioural
+            # kernel cases (kernel_subset / kernel_scripted) decide
+            return {"nontrivial": False, "labels": ["kernel.helper-not-used"]}
         require(all(r[1] == n and r[2] == 3 for r in rec), "kernel.arguments", lambda: "unranking called with (n,k) != (%d,3): %r" % (n, rec[:3]))
         require(len(triples) == min(c, budget), "kernel.count", lambda: "n=%d budget=%d: %d triples used, expected %d" % (n, budget, len(triples), min(c, budget)))
         require(len(set(triples)) == len(triples), "kernel.distinct", lambda: "n=%d budget=%d: repeated triple among %r" % (n, budget, triples[:10]))
